@@ -69,7 +69,8 @@ def unjson(x):
 
 
 def case_hash(x):
-    return hashlib.sha256(json.dumps(jsonable(x), sort_keys=True, default=repr).encode()).hexdigest()[:20]
+    # member order is significant in descriptions (it is the wire order): two cases that differ only in order are different cases
+    return hashlib.sha256(json.dumps(jsonable(x), sort_keys=False, default=repr).encode()).hexdigest()[:20]
 
 
 def clip(x, limit=MAX_SAMPLE_BYTES):
